@@ -45,7 +45,7 @@ def run_one(sim, params):
     nfc = core.import_nfc()
     import nfc.tag
     typ = params["type"]
-    op = sim.wpick("op", [(5, "write"), (2, "format"), (3, "wipe"), (3, "write-retry")]
+    op = sim.wpick("op", [(5, "write"), (2, "format"), (3, "wipe"), (5, "write-retry")]
                    + ([(2, "format-write")] if typ in ("t1", "t2") else []))
     kw = {}
     if op == "write-retry" and typ == "t2" and sim.chance("retry.t2.big", 0.5):
